@@ -131,13 +131,48 @@ Theorem C05_close_once_all_faults : forall i (fa : option (nat * fault)) o,
 Proof. exact close_once_all_faults. Qed.
 Print Assumptions C05_close_once_all_faults.
 
+(* Body rendering fails (unserializable media, no handler for the content type, handler error):
+   the framing clauses - in particular Content-Length = bytes sent - hold for what the error
+   handler put into the response, on both interfaces; the failed response's stream is ignored. *)
+Theorem C05_wsgi_framing_recovery : forall i st,
+  status_wf (i_status (effective i)) = true -> wsgi_stream_ok (effective i) = true ->
+  typeless_media (effective i) = false ->
+  wsgi_emit_r true i = Some st -> oracle_wsgi (effective i) (wobs_of st) = [].
+Proof. exact wsgi_framing_recovery. Qed.
+Print Assumptions C05_wsgi_framing_recovery.
+
+Theorem C05_asgi_framing_recovery : forall i fa o,
+  status_wf (i_status (effective i)) = true -> typeless_media (effective i) = false ->
+  asgi_emit_r i fa = Some o -> oracle_asgi (effective i) o = [].
+Proof. exact asgi_framing_recovery. Qed.
+Print Assumptions C05_asgi_framing_recovery.
+
+Theorem C05_recovery_ignores_stream : forall i,
+  render_fails i = true -> i_stream (effective i) = None.
+Proof. exact recovery_ignores_stream. Qed.
+Print Assumptions C05_recovery_ignores_stream.
+
+(* SSE and client disconnect (http.disconnect delivered through receive() while the emitter
+   is still producing): the emitter is abandoned, and the terminating body event with
+   more_body = False is still sent - exactly one start, body events of which only the last
+   has more_body false. *)
+Theorem C05_sse_disconnect_terminated : forall i evs k o,
+  status_wf (i_status i) = true -> typeless_media i = false -> is_bodiless i = false ->
+  i_sse i = Some evs -> i_disconnect i = Some k ->
+  asgi_emit i None = Some o ->
+  ao_raised o = false /\
+  exists h, ao_events o = AStart (code_of i) h
+                          :: map (fun e => ABody e true) (firstn (Nat.max 1 k) evs) ++ [ABody [] false].
+Proof. exact sse_disconnect_terminated. Qed.
+Print Assumptions C05_sse_disconnect_terminated.
+
 (* ---- non-vacuity *)
 Definition ex_stream : stream :=
   {| k_kind := KIter; k_chunks := [Some [97; 98]; Some [99]]; k_raises := Some FCancel; k_has_close := true |}.
 Definition ex_input : input :=
   {| i_head := false; i_status := SLine [50; 48; 48; 32; 70; 105; 110; 101]; i_text := None;
      i_data := None; i_media := None; i_stream := Some ex_stream; i_sse := None;
-     i_clen := None; i_ctype := None; i_wrapper := false; i_cached := false |}.
+     i_clen := None; i_ctype := None; i_wrapper := false; i_cached := false; i_disconnect := None; i_media_fails := false; i_recovery := rc0 |}.
 
 Example C05_example_stream_send_failure :
   status_wf (i_status ex_input) = true /\ typeless_media ex_input = false /\
@@ -150,7 +185,7 @@ Proof. split; [reflexivity|]. split; [reflexivity|]. eexists. split; [reflexivit
 Example C05_example_head_length :
   let i := {| i_head := true; i_status := SEnum 200 [79; 75]; i_text := Some [104; 105];
               i_data := Some [1]; i_media := None; i_stream := Some ex_stream; i_sse := None;
-              i_clen := None; i_ctype := None; i_wrapper := true; i_cached := false |} in
+              i_clen := None; i_ctype := None; i_wrapper := true; i_cached := false; i_disconnect := None; i_media_fails := false; i_recovery := rc0 |} in
   status_wf (i_status i) = true /\ wsgi_stream_ok i = true /\ typeless_media i = false /\
   exists st, wsgi_emit true i = Some st /\ ws_body st = WList [] /\
              h_clen (ws_headers st) = Some [50] /\ sv_reads (serve (ws_body st)) = 0%nat.
